@@ -303,7 +303,7 @@ theorem gjLoop_spec (n : Nat) (A0 : Mat) (hA0 : ∀ a ∈ A0, a.length = n) :
       (∀ r ∈ todo, RowOK n A0 (zeros done.length) r) →
       done.length + todo.length = n →
       gjLoop fuel done todo = some res →
-      res.length = n ∧ ∀ i (h : i < res.length), vecMat n res[i].2 A0 = unitVec n i := by
+      res.length = n ∧ ∀ i (h : i < res.length), res[i].2.length = n ∧ vecMat n res[i].2 A0 = unitVec n i := by
   intro fuel
   induction fuel with
   | zero =>
@@ -317,7 +317,8 @@ theorem gjLoop_spec (n : Nat) (A0 : Mat) (hA0 : ∀ a ∈ A0, a.length = n) :
       subst ht
       have hk : done.length = n := by simpa using hcount
       refine ⟨hk, fun i h => ?_⟩
-      obtain ⟨_, hv⟩ := hdone i h
+      obtain ⟨hl2, hv⟩ := hdone i h
+      refine ⟨hl2, ?_⟩
       have hlen := rowOK_rest_length n A0 hA0 _ _ (hdone i h)
       have : done[i].1 = [] := by
         apply List.eq_nil_of_length_eq_zero
@@ -332,7 +333,8 @@ theorem gjLoop_spec (n : Nat) (A0 : Mat) (hA0 : ∀ a ∈ A0, a.length = n) :
       subst hres
       have hk : done.length = n := by simpa using hcount
       refine ⟨hk, fun i h => ?_⟩
-      obtain ⟨_, hv⟩ := hdone i h
+      obtain ⟨hl2, hv⟩ := hdone i h
+      refine ⟨hl2, ?_⟩
       have hlen := rowOK_rest_length n A0 hA0 _ _ (hdone i h)
       have : done[i].1 = [] := by
         apply List.eq_nil_of_length_eq_zero
@@ -378,6 +380,69 @@ theorem gjLoop_spec (n : Nat) (A0 : Mat) (hA0 : ∀ a ∈ A0, a.length = n) :
         · simp only [List.length_append, List.length_map, List.length_cons, List.length_nil]
           simp only [List.length_cons] at hcount hrl
           omega
+
+
+theorem isSquare_iff (n : Nat) (A : Mat) : isSquare n A = true ↔ A.length = n ∧ ∀ a ∈ A, a.length = n := by
+  simp [isSquare]
+
+@[simp] theorem length_identity (n : Nat) : (identity n).length = n := by simp [identity]
+
+theorem inverse_some (A B : Mat) (h : inverse A = some B) :
+    (∀ a ∈ A, a.length = A.length) ∧
+      ∃ res, gjLoop A.length [] (A.zip (identity A.length)) = some res ∧ B = res.map (·.2) := by
+  unfold inverse at h
+  simp only at h
+  split at h
+  · rename_i hsq
+    obtain ⟨_, hrows⟩ := (isSquare_iff _ _).mp hsq
+    refine ⟨hrows, ?_⟩
+    cases hg : gjLoop A.length [] (A.zip (identity A.length)) with
+    | none => simp [hg] at h
+    | some res =>
+      simp only [hg, Option.map_some, Option.some.injEq] at h
+      exact ⟨res, rfl, h.symm⟩
+  · simp at h
+
+/-- list-level statement: the rows `b_i` of the computed inverse satisfy `b_i · A = e_i` -/
+theorem inverse_left (A B : Mat) (h : inverse A = some B) :
+    matMul A.length B A = identity A.length := by
+  obtain ⟨hrows, res, hg, rfl⟩ := inverse_some A B h
+  have hspec := gjLoop_spec A.length A hrows A.length [] (A.zip (identity A.length)) res
+    (by intro i h; simp at h)
+    (by
+      intro r hr
+      obtain ⟨h1, h2⟩ := zip_identity_rows A.length A hrows r hr
+      exact ⟨h2, by simpa [zeros] using h1⟩)
+    (by simp)
+    hg
+  obtain ⟨hlen, hrow⟩ := hspec
+  unfold matMul identity
+  apply List.ext_getElem
+  · simp [hlen]
+  · intro i h1 h2
+    simp only [List.getElem_map, List.getElem_range]
+    exact (hrow i (by simpa using h1)).2
+
+theorem inverse_length (A B : Mat) (h : inverse A = some B) :
+    B.length = A.length ∧ ∀ b ∈ B, b.length = A.length := by
+  have h1 := inverse_left A B h
+  have hl : B.length = A.length := by
+    have := congrArg List.length h1
+    simpa [matMul] using this
+  refine ⟨hl, ?_⟩
+  obtain ⟨hrows, res, hg, rfl⟩ := inverse_some A B h
+  have hspec := gjLoop_spec A.length A hrows A.length [] (A.zip (identity A.length)) res
+    (by intro i h; simp at h)
+    (by
+      intro r hr
+      obtain ⟨h1, h2⟩ := zip_identity_rows A.length A hrows r hr
+      exact ⟨h2, by simpa [zeros] using h1⟩)
+    (by simp)
+    hg
+  intro b hb
+  obtain ⟨r, hr, rfl⟩ := List.mem_map.mp hb
+  obtain ⟨i, hi, rfl⟩ := List.getElem_of_mem hr
+  exact (hspec.2 i hi).1
 
 
 end PorepyVerif.C37
